@@ -35,6 +35,7 @@ var profile = sim.Profile{
 	Prefixes:   []int{0, 100, 101, 102, 105, 110},
 	IdlePct:    5,
 	RedelivPct: 2,
+	Signed:     true,
 }
 
 func TestTree(t *testing.T) {
